@@ -1,4 +1,5 @@
 import Insim.Model.Escape
+import Insim.Props.C10
 /-
 C12 — escaping makes arbitrary text wire-safe; colour stripping is exact.
 All statements are over every string (lists of code points of any length).
@@ -251,5 +252,163 @@ example : escape [94, 124, 49, 94, 57] = [94, 94, 94, 118, 49, 94, 57] := by dec
 example : unescape (escape [94, 76, 35]) = [94, 76, 35] := by decide
 example : strip [94, 94, 49, 50, 94, 53, 54] = [94, 94, 49, 50, 54] := by decide
 example : strip [94, 49, 94, 94, 94, 50] = [94, 94] := by decide
+
+/-! ### the wire clause: escaping composed with the codepage conversion (C10's model) -/
+
+section wire
+open Insim.Cp Insim.Props.C10
+
+theorem esc_image_not_marker (c e : Nat) (h : esc? c = some e) : mk? e = none := by
+  unfold esc? at h
+  repeat (split at h; · (injection h with h; subst h; decide))
+  contradiction
+
+theorem esc_image_ascii (c e : Nat) (h : esc? c = some e) : isAscii e = true := by
+  unfold esc? at h
+  repeat (split at h; · (injection h with h; subst h; decide))
+  contradiction
+
+/-- escaping only adds ASCII characters -/
+theorem escapeSlow_chars (s : Esc.Str) : ∀ x ∈ escapeSlow s, x ∈ s ∨ isAscii x = true := by
+  fun_induction escapeSlow s with
+  | case1 => intro x hx; cases hx
+  | case2 c e he =>
+    intro x hx
+    simp at hx
+    rcases hx with rfl | rfl
+    · exact Or.inr (by decide)
+    · exact Or.inr (esc_image_ascii c _ he)
+  | case3 c hn => intro x hx; simp at hx; subst hx; exact Or.inl (by simp)
+  | case4 c d rest hcd ih =>
+    intro x hx
+    simp at hx
+    rcases hx with rfl | rfl | hx
+    · exact Or.inl (by simp)
+    · exact Or.inl (by simp)
+    · rcases ih x hx with h | h
+      · exact Or.inl (by simp [h])
+      · exact Or.inr h
+  | case5 c d rest hcd e he ih =>
+    intro x hx
+    simp at hx
+    rcases hx with rfl | rfl | hx
+    · exact Or.inr (by decide)
+    · exact Or.inr (esc_image_ascii c _ he)
+    · rcases ih x hx with h | h
+      · exact Or.inl (List.mem_cons_of_mem _ h)
+      · exact Or.inr h
+  | case6 c d rest hcd hn ih =>
+    intro x hx
+    simp at hx
+    rcases hx with rfl | hx
+    · exact Or.inl (by simp)
+    · rcases ih x hx with h | h
+      · exact Or.inl (List.mem_cons_of_mem _ h)
+      · exact Or.inr h
+theorem esc_caret_image (c : Nat) (h : esc? c = some 94) : c = 94 := by
+  unfold esc? at h
+  split at h
+  · assumption
+  · repeat (split at h; · (injection h with h; omega))
+    contradiction
+
+theorem caretOk_cons (a : Nat) (l : Cp.Str) (h1 : ∀ x xs, l = x :: xs → a = 94 → mk? x = none) (h2 : CaretOk l) :
+    CaretOk (a :: l) := by
+  cases l with
+  | nil => trivial
+  | cons x xs => exact ⟨h1 x xs rfl, h2⟩
+
+theorem escapeSlow_head (d : Nat) (rest : Esc.Str) : ∀ x xs, escapeSlow (d :: rest) = x :: xs → x = 94 ∨ (x = d ∧ esc? d = none) := by
+  intro x xs h
+  cases rest with
+  | nil =>
+    simp only [escapeSlow] at h
+    split at h
+    · injection h with h1 _; exact Or.inl h1.symm
+    · rename_i hn; injection h with h1 _; exact Or.inr ⟨h1.symm, hn⟩
+  | cons e rest' =>
+    simp only [escapeSlow] at h
+    split at h
+    · rename_i hc; injection h with h1 _; exact Or.inl (by rw [← h1]; exact hc.1)
+    · split at h
+      · injection h with h1 _; exact Or.inl h1.symm
+      · rename_i hn; injection h with h1 _; exact Or.inr ⟨h1.symm, hn⟩
+
+theorem isColour_ne_caret (d : Nat) (h : isColour d = true) : d ≠ 94 := by
+  simp [isColour] at h; omega
+
+/-- escaping keeps every caret away from the codepage letters, provided the text did -/
+theorem caretOk_escapeSlow (s : Esc.Str) (h : CaretOk s) : CaretOk (escapeSlow s) := by
+  fun_induction escapeSlow s with
+  | case1 => trivial
+  | case2 c e he => exact ⟨fun _ => esc_image_not_marker c e he, trivial⟩
+  | case3 c hn => trivial
+  | case4 c d rest hcd ih =>
+    have hrest : CaretOk rest := caretOk_tail d rest (caretOk_tail c (d :: rest) h)
+    refine ⟨fun hc => h.1 hc, ?_⟩
+    exact caretOk_cons d _ (fun _ _ _ hd => absurd hd (isColour_ne_caret d hcd.2)) (ih hrest)
+  | case5 c d rest hcd e he ih =>
+    have htail : CaretOk (d :: rest) := caretOk_tail c (d :: rest) h
+    refine ⟨fun _ => esc_image_not_marker c e he, ?_⟩
+    refine caretOk_cons e _ ?_ (ih htail)
+    intro x xs hx he94
+    subst he94
+    have hc94 := esc_caret_image c he
+    rcases escapeSlow_head d rest x xs hx with rfl | ⟨rfl, _⟩
+    · decide
+    · exact h.1 hc94
+  | case6 c d rest hcd hn ih =>
+    have htail : CaretOk (d :: rest) := caretOk_tail c (d :: rest) h
+    exact caretOk_cons c _ (fun _ _ _ hc => absurd hc (esc_none_ne_caret c hn)) (ih htail)
+theorem caretOk_no_caret (s : Cp.Str) (h : s.any (· == 94) = false) : CaretOk s := by
+  induction s with
+  | nil => trivial
+  | cons c cs ih =>
+    simp only [List.any_cons, Bool.or_eq_false_iff, beq_eq_false_iff_ne] at h
+    cases cs with
+    | nil => trivial
+    | cons d rest => exact ⟨fun hc => absurd hc h.1, ih h.2⟩
+
+theorem esc_caret : esc? 94 = some 94 := by decide
+
+theorem no_caret_of_nothing_to_escape (s : Esc.Str) (h : s.any (fun c => (esc? c).isSome) = false) : s.any (· == 94) = false := by
+  induction s with
+  | nil => rfl
+  | cons c cs ih =>
+    simp only [List.any_cons, Bool.or_eq_false_iff] at h ⊢
+    refine ⟨?_, ih h.2⟩
+    by_cases hc : c = 94
+    · subst hc; simp [esc_caret] at h
+    · simpa using hc
+
+/-- **the wire clause**: a text whose characters each exist in some LFS codepage, in which no caret stands in
+front of a codepage letter or '8', survives escape → encode → decode → unescape unchanged — for every length,
+every mix of codepages and reserved characters, over any codec family satisfying the five laws -/
+theorem wire_roundtrip (cp : Mk → CP) (order : List Mk) (ho : ∀ x : Mk, x ∈ order) (L : Laws cp) (LL : LeadLaw cp)
+    (s : Esc.Str) (hs : ∀ c ∈ s, isAscii c = true ∨ Encodable cp c) (hc : CaretOk s) :
+    unescape (Cp.toString cp (toBytes cp order (escape s))) = s := by
+  have hchars : ∀ c ∈ escape s, isAscii c = true ∨ Encodable cp c := by
+    intro c hcm
+    unfold escape at hcm
+    split at hcm
+    · rcases escapeSlow_chars s c hcm with h | h
+      · exact hs c h
+      · exact Or.inl h
+    · exact hs c hcm
+  have hcar : CaretOk (escape s) := by
+    unfold escape
+    split
+    · exact caretOk_escapeSlow s hc
+    · exact hc
+  rw [faithful_carets cp order ho L LL (escape s) hchars hcar]
+  exact unescape_escape s
+
+/-- a concrete run through the toy codec family of C10: Greek alpha, a reserved bar, a literal caret, 'x', e-acute -/
+example : unescape (Cp.toString toy (toBytes toy Mk.all (escape [945, 124, 94, 120, 233]))) = [945, 124, 94, 120, 233] := by decide
+
+/-- … and the recorded counter-example: a literal caret in front of a codepage letter does not survive -/
+example : unescape (Cp.toString toy (toBytes toy Mk.all (escape [94, 71, 225]))) ≠ [94, 71, 225] := by decide
+
+end wire
 
 end Insim.Props.C12
